@@ -154,6 +154,15 @@ fn gen_c10(seed: u64, tier: Tier) -> Scenario {
         let pm = rng.uniform(0.05, 0.4);
         sprinkle(&mut rng, &sc.config, &mut ops, pm, 0.0);
     }
+    // the last thing before the reset is a rejected call that carried another mask
+    if sc.config.channels > 0 && rng.chance(0.15) {
+        ops.push(gen_set_mask(&mut rng, &sc.config));
+        let mut b = gen_bad_op(&mut rng, &sc.config);
+        while matches!(b, Op::Bad { call: BadCall::ForeignUnwind { .. }, .. }) {
+            b = gen_bad_op(&mut rng, &sc.config);
+        }
+        ops.push(b);
+    }
     let prefix = ops.len();
     ops.push(Op::Reset);
     ops.push(Op::SetMask { mask: sc.config.mask.clone() });
@@ -1520,13 +1529,18 @@ fn gen_c06(seed: u64, tier: Tier) -> Scenario {
         }
     };
     // only full processing calls in position mode
-    let ops: Vec<Op> = ops
+    let mut ops: Vec<Op> = ops
         .into_iter()
         .map(|o| match o {
             Op::Process { slack_in, slack_out, slices, .. } => Op::Process { path: Path::IntoBuffer, valid: None, slack_in, slack_out, slices, ragged: 0, alias: false },
             x => x,
         })
         .collect();
+    // rejected calls interleaved with the control calls (a rejected call must not consume a pending ramp)
+    if sc.config.channels > 0 && rng.chance(0.25) {
+        let pb = rng.uniform(0.05, 0.3);
+        sprinkle(&mut rng, &sc.config, &mut ops, 0.0, pb);
+    }
     sc.profile = p;
     sc.sim_seconds = t;
     sc.ops = ops;
